@@ -117,10 +117,10 @@ func RectFromCenter(lat, lon, meters float64) (
 
 	} else {
 
-		latSin, latCos := math.Sincos(lat)
-		latT := math.Asin(latSin / rCos)
-		latTSin, latTCos := math.Sincos(latT)
-		lonΔ := math.Acos((rCos - latTSin*latSin) / (latTCos * latCos))
+		// tan lonΔ = sin r / sqrt(cos(lat+r) cos(lat-r)): the same angle as the
+		// acos form of the reference, which cancels to about 1% of the width at
+		// metre-scale radii
+		lonΔ := math.Atan2(math.Sin(r), math.Sqrt(math.Cos(maxLat)*math.Cos(minLat)))
 
 		minLon = lon - lonΔ
 		maxLon = lon + lonΔ
